@@ -570,8 +570,12 @@ def format_datetime(format: str, value: datetime.datetime) -> str:
     if mins != 0:
         tz += f".{mins:02d}"
 
-    # Note that tzname() is permitted to return None.
-    tzname = value.tzname()
+    # Note that tzname() is permitted to return None - and a tzinfo subclass
+    # needn't implement it at all (the base class raises NotImplementedError).
+    try:
+        tzname = value.tzname()
+    except NotImplementedError:
+        tzname = None
     if tzname is not None:
         tz += ":" + tzname
 
